@@ -21,6 +21,10 @@ func TestC09Hist(t *testing.T) {
 			cfg.mb, cfg.bytesAlpha = true, true
 		}
 		h := &HistSpec{Ops: genHistory(rt, cfg, 40)}
+		if rapid.IntRange(0, 24).Draw(rt, "bulk") == 7 {
+			at := rapid.IntRange(0, len(h.Ops)).Draw(rt, "bulkat")
+			h.Ops = append(append(append([]*Op(nil), h.Ops[:at]...), genBulkOp(rt, cfg, "bulk")), h.Ops[at:]...)
+		}
 		if rapid.Bool().Draw(rt, "grow") {
 			h.Grow = []int{1, 3, 7, 100}[rapid.IntRange(0, 3).Draw(rt, "growN")]
 		}
